@@ -771,6 +771,7 @@ impl Engine for LoggerEngine {
                 return None;
             }
             let r = run_job(job);
+            res.fold_job(&r);
             res.bump("evaluations", 1);
             res.bump(&format!("mode.{}", mode), 1);
             res.bump("deliveries_checked", r.log.len() as u64);
